@@ -26,13 +26,14 @@ REAL = ['TotalDepth.RP66V1.core.Index.LogicalRecordIndex (pIndex.py)', 'TotalDep
         'iter_logical_record_positions, get_file_logical_data, iter_logical_records, validate_positions']
 STUB = c01.STUB
 ASSUMPTIONS = [
+    'simulated machine: every process that runs library code has a 4 GiB address space (sim/runner.py MEMORY_LIMIT_BYTES); a request for more fails at once with MemoryError',
     'reference for a fetch is the sequential read of the same run on the same bytes (as the statement says); when that read itself '
     'disagrees with the model it is only counted here (probe seq_disagrees_with_model) and left to C01',
     'fetch length < 0 means "to the end" (documented default -1); offset/length slices follow Python slice semantics for offset >= 0',
     'no stored-byte fault between operations: no listed property says what a reader owes its caller when the file changes under it',
     'index entry payload length is not compared (documented as including pad bytes)',
 ] + c01.ASSUMPTIONS[1:]
-PROBES = ['cross1', 'cross2', 'cross_ge3', 'cross_vr', 'len0', 'len_rest', 'len_beyond', 'off_beyond', 'same_twice', 'descending',
+PROBES = ['index_on_path', 'restart', 'restart_replaced', 'cross1', 'cross2', 'cross_ge3', 'cross_vr', 'len0', 'len_rest', 'len_beyond', 'off_beyond', 'same_twice', 'descending',
           'after_failing', 'after_scan', 'fetch_pos', 'validate', 'encrypted_fetch', 'seq_disagrees_with_model', 'multi_vr_fetch']
 
 File = Index = None
@@ -123,7 +124,24 @@ def gen_ops(rng, model):
 def generate(seed, tier):
     rng = seeds.Rng(seed)
     model = D.gen_model(rng)
-    return {'world': 'dlis_phys', 'model': model, 'ops': gen_ops(rng, model)}
+    ops = gen_ops(rng, model)
+    sc = {'world': 'dlis_phys', 'model': model, 'ops': ops}
+    if rng.chance(0.15):
+        # the index lives on a real path and is pickled / un-pickled in the history ("restart with only durable state
+        # surviving"); the file may have been replaced by another conformant file in between
+        sc['storage'] = 'path'
+        k = rng.randrange(0, len(ops) + 1)
+        if rng.chance(0.5):
+            ops.insert(k, ['restart'])
+        else:
+            alt = D.gen_model(seeds.Rng(rng.getrandbits(32)), max_records=8)
+            ops.insert(k, ['restart_replaced', alt])
+            # later operations address the new file
+            n2 = len(alt['records'])
+            for j in range(k + 1, len(ops)):
+                if ops[j][0] in ('fetch', 'fetch_pos') and 0 <= ops[j][1] < 10 ** 6:
+                    ops[j] = [ops[j][0], ops[j][1] % n2] + ops[j][2:]
+    return sc
 
 
 def crossing_class(rec, off, ln):
@@ -145,8 +163,19 @@ def execute(scenario):
     f = SimFile(by, clock)
     op_shapes = []
     res.op('index')
+    on_path = scenario.get('storage') == 'path'
+    scratch = path = None
+    if on_path:
+        import os
+        from sim import build as simbuild
+        scratch = os.path.join(simbuild.scratch_root(), f'tdsim-{os.getpid()}')
+        os.makedirs(scratch, exist_ok=True)
+        path = os.path.join(scratch, 'f.dlis')
+        with open(path, 'wb') as fh:
+            fh.write(by)
+        res.probe('index_on_path')
     try:
-        index = Index.LogicalRecordIndex(f)
+        index = Index.LogicalRecordIndex(path if on_path else f)
         index._enter()
     except Exception as err:
         res.violation('index-exception', f'{type(err).__name__}: {err}', exc=type(err).__name__, **c01.sul_facts(model['sul']))
@@ -184,6 +213,45 @@ def execute(scenario):
         kind = op[0]
         res.op(kind)
         t0 = clock.seq
+        if kind in ('restart', 'restart_replaced'):
+            import pickle
+            res.probe(kind)
+            try:
+                blob = pickle.dumps(index)          # taken while the index is open, as the repository's own tools do
+                index._exit()
+                if kind == 'restart_replaced':
+                    model = op[1]
+                    by, layout = D.build(model)
+                    exp = layout['records']
+                    with open(path, 'wb') as fh:
+                        fh.write(by)
+                index = pickle.loads(blob)
+                index._enter()
+            except Exception as err:
+                res.violation('restart-exception', f'op {k} {kind}: {type(err).__name__}: {err}', exc=type(err).__name__, replaced=kind == 'restart_replaced')
+                break
+            if len(index) != len(exp):
+                res.violation('index-count', f'op {k} {kind}: after un-pickling and entering, the index has {len(index)} entries, the file has {len(exp)} logical records',
+                              entries=len(index), records=len(exp), after_restart=True)
+                break
+            bad_entry = False
+            for i in range(len(exp)):
+                e, x = index[i], exp[i]
+                if (e.position.vr_position, e.position.lrsh_position, e.description.lr_type) != (x['vr_pos'], x['lrsh_pos'], x['type']):
+                    res.violation('index-entry', f'op {k} {kind}: entry {i} is stale: {(e.position.vr_position, e.position.lrsh_position, e.description.lr_type)}, '
+                                  f'the file has {(x["vr_pos"], x["lrsh_pos"], x["type"])}', segments=len(x['segs']), n_vrs=x['n_vrs'], after_restart=True)
+                    bad_entry = True
+                    break
+            if bad_entry:
+                break
+            s3 = runner.Result()
+            seq = c01.sequential_read(s3, index.rp66v1_file, layout, f'seq@{k}')
+            res.events.extend(s3.events)
+            if seq is None or len(seq) != len(exp):
+                break
+            op_shapes.append(kind)
+            prev_kind, prev_index = 'scan', None
+            continue
         if kind == 'scan':
             s2 = runner.Result()
             again = c01.sequential_read(s2, index.rp66v1_file, layout, f'scan@{k}')
@@ -292,7 +360,7 @@ def execute(scenario):
                               too_long=len(got) > len(want) and got[:len(want)] == want, **facts)
             if (outcome[2], outcome[3]) != (x['type'], x['eflr']):
                 res.violation('fetch-kind', f'op {k}: {op} returned type {outcome[2]} eflr {outcome[3]}', **facts)
-            bad = contained(f.reads_between(t0, t1), x['vr_extents'])
+            bad = contained(f.reads_between(t0, t1), x['vr_extents']) if not on_path else []
             if bad:
                 res.violation('footprint', f'op {k}: {op} read {bad[:3]} outside the visible records {x["vr_extents"]} of record {ii}',
                               **facts)
@@ -303,7 +371,10 @@ def execute(scenario):
     except Exception as err:
         res.violation('close-exception', f'{type(err).__name__}: {err}', exc=type(err).__name__)
     res.events.extend(f.log)
-    res.shape = seeds.digest([op_shapes, c01.shape_of(model)])
+    res.shape = seeds.digest([op_shapes, c01.shape_of(model), on_path])
+    if scratch:
+        import shutil
+        shutil.rmtree(scratch, ignore_errors=True)
     return res
 
 
